@@ -85,7 +85,7 @@ Proof. exact str_toks_exact. Qed.
 Print Assumptions C07_exact_holds.
 
 Theorem C07_exact_kwargs_holds :
-  forall rho n kw x ts, kw_toks rho n kw x = Ok ts -> Forall (exact_tok (conv_of (kc (kw_ctx rho kw x)))) ts.
+  forall rho n kw x ts, kw_toks rho n kw x = Ok ts -> Forall (exact_tok (conv_kw rho kw x)) ts.
 Proof. exact kw_toks_exact. Qed.
 Print Assumptions C07_exact_kwargs_holds.
 
@@ -116,6 +116,26 @@ Theorem C07_on_fragment :
     forallb (benign_tok (conv_x rho x) qa) ts = true -> Forall (strict_tok (conv_x rho x) qa) ts.
 Proof. exact str_toks_strict_on_fragment. Qed.
 Print Assumptions C07_on_fragment.
+
+(* 4b. the same claim for a class-level (syntactic) fragment: an outer class whose convention survives a function call
+       ([transparent]: generic, MySQL, Vertica, Oracle, PostgreSQL, Redshift, MSSQL, SQLite) and sub-statements built by
+       classes whose alias / AS / query-alias convention agrees with it ([compat], e.g. any mix of the double-quote
+       classes): every identifier, alias, alias reference, qualifier, sub-query alias, literal and AS choice at every depth,
+       function arguments included, follows the outer class.  Only the two class-independent deviations (WITH names,
+       comparison aliases) are left out. *)
+Theorem C07_compatible_classes_partial :
+  forall rho n x ts, let c := top_cls_r rho x in
+    transparent c = true -> (forall c0, compat c (rho c0) = true) ->
+    str_toks rho n x = Ok ts -> Forall (strict_core (conv_cls c) (qalias_quote c)) ts.
+Proof. exact str_toks_compatible. Qed.
+Print Assumptions C07_compatible_classes_partial.
+
+Example C07_compatible_classes_nonvacuous :
+  filter transparent all_cls = [CQuery; CMySQL; CVertica; COracle; CPostgreSQL; CRedshift; CMSSQL; CSQLLite]
+  /\ filter (compat CQuery) all_cls = [CQuery; CMySQL; CVertica; COracle; CPostgreSQL; CRedshift; CMSSQL; CSQLLite; CSnowflake]
+  /\ filter (compat CMySQL) all_cls = [CQuery; CMySQL; CVertica; COracle; CRedshift; CMSSQL; CSQLLite]
+  /\ filter (compat COracle) all_cls = [CQuery; CMySQL; CVertica; COracle; CRedshift; CMSSQL; CSQLLite].
+Proof. vm_compute. repeat split. Qed.
 
 (* 5. outermost class wins: _set_kwargs_defaults only fills absent keys; once the outer query has filled them a nested
       query of ANY class leaves the context alone (up to groupby_alias, which can only be switched off); below a
